@@ -4,6 +4,7 @@ import glob, json, os
 V = os.path.dirname(os.path.dirname(os.path.abspath(__file__)))
 print("| seeded change | property | what it does (needs) | confirmed (suite passes, demo fails only with the change) | caught by quick check | how |")
 print("|---|---|---|---|---|---|")
+tot = {"n": 0, "first": 0, "after": 0, "other": 0}
 for f in sorted(glob.glob(os.path.join(V, "seeded", "*", "meta.json"))):
     m = json.load(open(f))
     v = m.get("verification", {})
@@ -18,8 +19,21 @@ for f in sorted(glob.glob(os.path.join(V, "seeded", "*", "meta.json"))):
             pass
     summ = " ".join(str(m.get("summary", "")).split())[:170]
     needs = " ".join(str(m.get("needs", "")).split())[:150]
+    oc = v.get("other_checks", {})
+    also = [k for k, r in sorted(oc.items()) if r.get("caught_by_quick")]
+    caught = "yes" if v.get("caught_by_quick") else ("yes, after strengthening the check" if v.get("caught_by_quick_after_strengthening") else "NO")
+    if also:
+        caught += " (caught by the quick check of %s)" % ", ".join(also)
+    tot["n"] += 1
+    tot["first"] += 1 if v.get("caught_by_quick") else 0
+    tot["after"] += 1 if (not v.get("caught_by_quick") and v.get("caught_by_quick_after_strengthening")) else 0
+    tot["other"] += 1 if (not v.get("caught_by_quick") and not v.get("caught_by_quick_after_strengthening") and also) else 0
     print("| %s | %s | %s (%s) | %s | %s | %s |" % (
         os.path.basename(os.path.dirname(f)), m.get("property"), summ.replace("|", "/"), needs.replace("|", "/"),
         "yes" if m.get("confirmed") else "NO",
-        "yes" if v.get("caught_by_quick") else ("yes, after strengthening the check" if v.get("caught_by_quick_after_strengthening") else "NO"),
+        caught,
         how.replace("|", "/")))
+print()
+print("Totals: %d changes; %d caught by the property's quick check as first run against them; %d caught after the check was "
+      "strengthened in principle; %d caught only by another property's quick check; %d not caught." % (
+          tot["n"], tot["first"], tot["after"], tot["other"], tot["n"] - tot["first"] - tot["after"] - tot["other"]))
